@@ -72,6 +72,8 @@ class SeqV:
         self.term = term        # identity term if the sequence came from an opaque value
         self.filt = None        # filter sequences: dict(n, keep, src, pos) (core.make_filter)
         self.blocks = None      # concatenation of varying-length blocks: dict(n, off, blen, block, n0)
+        self.rows2d = None      # 2-D array given as a sequence of equally long rows (np.array(list of 1-D arrays))
+        self.row_len = None
         self.birth = next(_counter)
 
     @property
